@@ -1295,6 +1295,9 @@ def run(ctx):
     ctx.attempt(r124, ctx)
     ctx.attempt(r124_rc_tests, ctx)
     ctx.attempt(r1214, ctx)
+    ctx.rule("R-12.18", "per-iteration data of the engine loops (forces, energies, frames) is not taken from an earlier iteration: a local defined only on some paths of a loop is not read on all of them", floor=20)
+    from .shared import stale_iteration_value
+    ctx.attempt(stale_iteration_value, ctx, "R-12.18", list(ENGINE_FILES) + [ENGBASE, ENGPARTS], None, " (e.g. the integrator is handed the forces of an earlier MD step: the trajectory is no longer the one the equations of motion generate, backward propagation does not retrace forward)")
     from . import c19
     from .shared import RuleProxy as _RP
     ctx.attempt(c19.r195, _RP(ctx, "R-12.15", " (a reversed propagation then starts from a frame that is not the phase point: other box / atoms than the frame it references)"))
@@ -1314,6 +1317,7 @@ def run(ctx):
 
 
 VARIANTS = [
+    B("c12-ase-forces-only-read-for-written-frames", ASE, "            energy = self.calc.results[\"energy\"]\n            forces = self.calc.results[\"forces\"]\n            stress = self.calc.results.get(\"stress\", None)\n            if (i) % (self.subcycles) == 0:\n", "            if (i) % (self.subcycles) == 0:\n                energy = self.calc.results[\"energy\"]\n                forces = self.calc.results[\"forces\"]\n                stress = self.calc.results.get(\"stress\", None)\n", "R-12.18", control=True, why="seeded C12_i"),
     B("c12-cp2k-frames-rebound-per-poll", CP2K, "                    pos_traj += pos_reader.read_and_process_content()\n                    vel_traj += vel_reader.read_and_process_content()", "                    pos_traj = pos_reader.read_and_process_content()\n                    vel_traj = vel_reader.read_and_process_content()", "R-12.17", control=True, why="seeded C12_g"),
     K("c12-keep-cp2k-frames-extend", CP2K, "                    pos_traj += pos_reader.read_and_process_content()\n                    vel_traj += vel_reader.read_and_process_content()", "                    pos_traj.extend(pos_reader.read_and_process_content())\n                    vel_traj.extend(vel_reader.read_and_process_content())"),
     B("c12-turtle-order-from-optional-box", TURTLE, "                order = self.calculate_order(\n                    system,\n                    xyz=tmd_system.particles.pos,\n                    vel=tmd_system.particles.vel,\n                    box=tmd_system.box.length,\n                )", "                order = self.calculate_order(\n                    system, xyz=pos, vel=vel, box=box\n                )", "R-12.16", control=True, why="seeded C12_f"),
